@@ -10,7 +10,10 @@ def gen_wp(rng):
     """world parameters of a run: interval, time mode, grid"""
     t0 = rng.choice(T0S)
     T = rng.choice(TS)
-    mode = 'grid' if rng.random() < 0.6 else 'float'
+    r = rng.random()
+    # grid: dyadic steps, exact arithmetic, exact ties; decimal: multiples of 0.1 / 0.05 as users write them,
+    # where mathematically equal expressions round differently; float: uniform doubles
+    mode = 'grid' if r < 0.5 else 'decimal' if r < 0.65 else 'float'
     G = rng.choice([16, 32])
     return {'t0': t0, 'T': T, 'mode': mode, 'G': G}
 
@@ -22,6 +25,10 @@ def edges(wp):
 def gen_time(rng, wp):
     if wp['mode'] == 'grid':
         return wp['t0'] + rng.randrange(0, wp['G'] + 1) * (wp['T'] / wp['G'])
+    if wp['mode'] == 'decimal':
+        d = 10.0 if wp['T'] > 1 else 20.0
+        t = wp['t0'] + rng.randrange(0, int(wp['T'] * d) + 1) / d
+        return min(max(t, wp['t0']), wp['t0'] + wp['T'])
     return wp['t0'] + rng.random() * wp['T']
 
 
@@ -58,13 +65,19 @@ def jitter(rng, wp, xs, keep_ends=False):
     order and the interval preserved; exposes tolerance-based comparisons where exact ones are meant"""
     t0, t1 = edges(wp)
     out = []
-    scale = rng.choice([1e-12, 1e-9, 1e-7, 3e-6, 1e-5])
+    import math
+    scale = rng.choice([1e-12, 1e-9, 1e-7, 3e-6, 1e-5, 'ulp'])
     for k, t in enumerate(xs):
         if keep_ends and (k == 0 or k == len(xs) - 1):
             out.append(t)
             continue
-        d = rng.choice([-1.0, 1.0, 0.0, 1.0]) * scale * max(1.0, abs(t)) * rng.random()
-        v = min(max(t + d, t0), t1)
+        if scale == 'ulp':
+            # the adjacent double (0.3 vs 0.1+0.2)
+            v = math.nextafter(t, rng.choice([-math.inf, math.inf, math.inf])) if rng.random() < 0.7 else t
+        else:
+            d = rng.choice([-1.0, 1.0, 0.0, 1.0]) * scale * max(1.0, abs(t)) * rng.random()
+            v = t + d
+        v = min(max(v, t0), t1)
         out.append(v)
     out = sorted(set(out))
     return out
